@@ -8,9 +8,13 @@ package persisters
 //@   property C07
 //@   modifies *, rowWrites
 //@   ensures [oblivious] err == nil ==> rowWrites > old(rowWrites)
-//@   at call Update#1 assert [writes-the-incoming-row] hdr.Deleted == old(dbhdr.Deleted) && hdr.Record == old(dbhdr.Record) && hdr.Block == old(dbhdr.Block) && hdr.Lastknownrecord == old(dbhdr.Lastknownrecord) && hdr.Lastknownblock == old(dbhdr.Lastknownblock) && hdr.Size == old(dbhdr.Size) && hdr.Typeflag == old(dbhdr.Typeflag) && hdr.Mode == old(dbhdr.Mode) && hdr.Linkname == old(dbhdr.Linkname) && hdr.Paxrecords == old(dbhdr.Paxrecords)
+//@   at call Update#1 assert [writes-the-incoming-row] hdr.Deleted == old(dbhdr.Deleted) && hdr.Record == old(dbhdr.Record) && hdr.Block == old(dbhdr.Block) && hdr.Lastknownrecord == old(dbhdr.Lastknownrecord) && hdr.Lastknownblock == old(dbhdr.Lastknownblock) && hdr.Size == old(dbhdr.Size) && hdr.Typeflag == old(dbhdr.Typeflag) && hdr.Mode == old(dbhdr.Mode) && hdr.Paxrecords == old(dbhdr.Paxrecords)
+//@   at call Update#1 assert [link-path-kept-unless-sanitized] initializing || old(dbhdr.Linkname) == "" ==> hdr.Linkname == old(dbhdr.Linkname)
 //@   at call Where#1 assert [lookup-uses-stored-name] unboxStr(arg_args[0]) == hdr.Name
 //@   at call Where#2 assert [lookup-uses-stored-linkname] unboxStr(arg_args[0]) == hdr.Linkname
+//@   property C01
+//@   at call getSanitizedPath#2 assert [link-path-spelled-like-lookups] arg_name == idbhdr.Linkname && idbhdr.Linkname != ""
+//@   property C07
 //@   at call Update#1 assert [name-kept-when-initializing] initializing ==> hdr.Name == old(dbhdr.Name)
 
 //@ func (*MetadataPersister).DeleteHeader
